@@ -22,6 +22,10 @@ class Monitor:
 
     def on_alloc(self, n, ret):
         """Return None if fine, else a text describing the violation."""
+        if n == 0:                    # alloc(0): None or an index of the partition; nothing becomes live
+            if ret is not None and not self.lo <= ret <= self.hi:
+                return 'alloc(0) returned %r outside the partition [%d,%d)' % (ret, self.lo, self.hi)
+            return None
         if ret is None:
             run = self.max_free_run()
             if n >= 1 and run >= n:
@@ -48,7 +52,7 @@ def check_history(make_alloc, size, pos, off, ops, set_r=None):
     m = Monitor(size, pos, off)
     for k, op in enumerate(ops):
         try:
-            if (op[0] == 'a' and op[1] < 1) or (op[0] == 'f' and not off <= op[1] < off + size):
+            if op[0] == 'a' and op[1] < 0:
                 return None          # outside the property's alphabet: the history ends here
             if op[0] == 'a':
                 if set_r:
